@@ -2075,7 +2075,15 @@ impl SeekPoint {
 
 impl contiguous::Adjacent for SeekPoint {
     fn valid_first(&self) -> bool {
-        true
+        // a sample offset of all 1 bits marks a placeholder on disk,
+        // so a defined point can't have that offset
+        !matches!(
+            self,
+            Self::Defined {
+                sample_offset: u64::MAX,
+                ..
+            }
+        )
     }
 
     fn is_next(&self, previous: &SeekPoint) -> bool {
@@ -2092,7 +2100,7 @@ impl contiguous::Adjacent for SeekPoint {
                 Self::Defined {
                     sample_offset: prev_offset,
                     ..
-                } => our_offset > prev_offset,
+                } => our_offset > prev_offset && *our_offset != u64::MAX,
                 Self::Placeholder => false,
             },
             Self::Placeholder => true,
